@@ -686,4 +686,158 @@ example : runHistory typeAll [splitCall 2, splitCall 3] =
      .ok [("outputs_0", some (f32 [.unk])), ("outputs_1", some (f32 [.unk])), ("outputs_2", some (f32 [.unk]))]] := by
   decide
 
+/-! ### The supplements' own rules (Compress, Loop) -/
+
+theorem tyLe_refl : ∀ t : Ty, tyLe t t = true
+  | .tensor e none => by simp [tyLe]
+  | .tensor e (some ds) => by simp [tyLe, zip_all_dimLe_refl ds]
+  | .seq t => by simp [tyLe, tyLe_refl t]
+  | .opt t => by simp [tyLe, tyLe_refl t]
+
+/-- Compress: whatever the supplement answers has the input's element type -/
+theorem compress_keeps_elem (e : Nat) (ish : Option (List Dim)) (cond : Ty) (axis : Option Int) (t : Ty)
+    (h : compressOwn (.tensor e ish) cond axis = .ok t) : ∃ sh, t = .tensor e sh := by
+  cases cond with
+  | tensor ce csh =>
+    simp only [compressOwn] at h
+    split at h
+    · exact ⟨none, by injection h with h; exact h.symm⟩
+    · split at h
+      · cases h
+      · split at h
+        · cases h
+        · split at h
+          · exact ⟨_, by injection h with h; exact h.symm⟩
+          · exact ⟨_, by injection h with h; exact h.symm⟩
+          · split at h
+            · exact ⟨_, by injection h with h; exact h.symm⟩
+            · cases h
+  | seq t' => simp [compressOwn] at h
+  | opt t' => simp [compressOwn] at h
+
+/-- Compress without an axis: a vector of unknown length, whatever is known about the input's rank
+    (what ONNX infers; the point of fix `2f0b661`) -/
+theorem compress_no_axis_vector (e : Nat) (ish : Option (List Dim)) (cond : Ty) (t : Ty)
+    (h : compressOwn (.tensor e ish) cond none = .ok t) : t = .tensor e (some [Dim.unk]) := by
+  cases cond with
+  | tensor ce csh =>
+    simp only [compressOwn] at h
+    split at h
+    · rename_i hc; simp at hc
+    · split at h
+      · cases h
+      · split at h
+        · cases h
+        · injection h with h; exact h.symm
+  | seq t' => simp [compressOwn] at h
+  | opt t' => simp [compressOwn] at h
+
+/-- Compress with an axis keeps the rank of an input of known rank -/
+theorem compress_axis_rank (e : Nat) (ds : List Dim) (cond : Ty) (a : Int) (t : Ty)
+    (h : compressOwn (.tensor e (some ds)) cond (some a) = .ok t) :
+    ∃ ds', t = .tensor e (some ds') ∧ ds'.length = ds.length := by
+  cases cond with
+  | tensor ce csh =>
+    simp only [compressOwn] at h
+    split at h
+    · rename_i hc; simp at hc
+    · split at h
+      · cases h
+      · split at h
+        · cases h
+        · split at h
+          · injection h with h; exact ⟨_, h.symm, setUnkAt_length _ _⟩
+          · cases h
+  | seq t' => simp [compressOwn] at h
+  | opt t' => simp [compressOwn] at h
+
+/-- the rule before the fix forgot the vector: same call, weaker answer -/
+theorem compress_old_forgets_vector_counterexample :
+    compressOwnOld (.tensor 1 none) (.tensor 9 (some [.const 2])) none = .ok (.tensor 1 none)
+    ∧ compressOwn (.tensor 1 none) (.tensor 9 (some [.const 2])) none = .ok (.tensor 1 (some [Dim.unk])) := by
+  decide
+
+example : compressOwn (.tensor 1 (some [.const 2, .sym "N"])) (.tensor 9 (some [.const 2])) (some (-1))
+    = .ok (.tensor 1 (some [.const 2, .unk])) := by decide
+example : compressOwn (.tensor 1 (some [.const 2, .sym "N"])) (.tensor 9 (some [.const 2])) (some 2)
+    = .error .inference := by decide
+example : compressOwn (.tensor 1 (some [.const 2])) (.tensor 7 (some [.const 2])) none = .error .inference := by decide
+example : compressOwn (.tensor 1 (some [.const 2])) (.tensor 9 (some [])) none = .ok (.tensor 1 (some [.unk])) := by decide
+example : compressOwn (.tensor 1 (some [.const 2])) (.tensor 9 (some [.const 2, .const 2])) none = .error .inference := by decide
+
+/-! Loop -/
+
+/-- the Loop supplement never changes which outputs exist -/
+theorem loopOwn_keys (results args : List (Option Ty)) (std : List (String × Option Ty)) :
+    (loopOwn results args std).map Prod.fst = std.map Prod.fst := by
+  simp only [loopOwn]
+  split
+  · exact loopOverlay_keys _ _
+  · rfl
+
+/-- **the scan outputs are the standard routine's**: the supplement speaks about the loop-carried
+    outputs only - whatever is known about the trip count or the condition, nothing is derived for
+    the outputs after them -/
+theorem loopOwn_scan_untouched (results args : List (Option Ty)) (std : List (String × Option Ty)) :
+    (loopOwn results args std).drop (min results.length args.length)
+      = std.drop (min results.length args.length) := by
+  simp only [loopOwn]
+  split
+  · have := loopOverlay_drop (List.zip results args) std
+    simpa [List.length_zip] using this
+  · rfl
+
+/-- **soundness of the reported carried type**: when the body's result refines the declared argument
+    type, the type the supplement reports is refined by BOTH - it holds for the initial value (zero
+    iterations) and for a result of the body (one or more) -/
+theorem loopCommon_sound (r a : Ty) (h : loopRefines (some r) (some a) = true) :
+    tyLe r (loopCommon r a) = true ∧ tyLe a (loopCommon r a) = true := by
+  cases r with
+  | tensor re rsh =>
+    cases a with
+    | tensor ae ash =>
+      simp only [loopRefines] at h
+      split at h
+      · cases h
+      · rename_i hne
+        have hre : re = ae := by simpa using hne
+        subst hre
+        cases ash with
+        | none => cases rsh <;> simp [loopCommon, tyLe]
+        | some as =>
+          cases rsh with
+          | none => simp at h
+          | some rs =>
+            simp only [Bool.and_eq_true, beq_iff_eq] at h
+            have hl : as.length = rs.length := h.1.symm
+            have := common_dims_sound as rs hl
+            simp [loopCommon, tyLe, List.length_zip, hl, this.1, this.2]
+    | seq t => simp [loopRefines] at h
+    | opt t => simp [loopRefines] at h
+  | seq t =>
+    cases a with
+    | tensor ae ash => simp [loopRefines] at h
+    | seq t' => simp [loopRefines] at h; subst h; simp [loopCommon, tyLe_refl]
+    | opt t' => simp [loopRefines] at h
+  | opt t =>
+    cases a with
+    | tensor ae ash => simp [loopRefines] at h
+    | seq t' => simp [loopRefines] at h
+    | opt t' => simp [loopRefines] at h; subst h; simp [loopCommon, tyLe_refl]
+
+/-- before fix `bd04552` the body's result type was reported as it is: not a type of the initial
+    value when the body changes a dimension (`f32[2]` fed, body yields `f32[3]`) -/
+theorem loop_old_unsound_counterexample :
+    loopOwnOld [some (.tensor 1 (some [.const 3]))] [("v_final_and_scan_outputs_0", some (.tensor 1 none))]
+      = [("v_final_and_scan_outputs_0", some (.tensor 1 (some [.const 3])))]
+    ∧ tyLe (.tensor 1 (some [.const 2])) (.tensor 1 (some [.const 3])) = false
+    ∧ loopOwn [some (.tensor 1 (some [.const 3]))] [some (.tensor 1 (some [.const 2]))]
+        [("v_final_and_scan_outputs_0", some (.tensor 1 none))]
+      = [("v_final_and_scan_outputs_0", some (.tensor 1 none))] := by
+  decide
+
+example : loopOwn [some (.tensor 1 (some [.const 2, .sym "N"]))] [some (.tensor 1 (some [.const 2, .unk]))]
+    [("o_0", some (.tensor 1 none)), ("o_1", some (.tensor 1 (some [.unk, .const 4])))]
+    = [("o_0", some (.tensor 1 (some [.const 2, .unk]))), ("o_1", some (.tensor 1 (some [.unk, .const 4])))] := by decide
+
 end C05
